@@ -179,7 +179,8 @@ pub fn check_opt(case: &OptCase, st: &mut Stats) -> Result<(), String> {
         }
         Opt::Decorate => {
             with.decorate = true;
-            applies = has_decoratable(&case.doc.blocks);
+            // (a stray <dt> from a literal-markup leaf is emphasised as well)
+            applies = has_decoratable(&case.doc.blocks) || html.contains("<dt");
         }
     }
     if with == base || base_has(&base, &case.opt) {
